@@ -13,6 +13,7 @@ WORKERS = int(os.environ.get("VERIF_WORKERS", "8"))
 KIND = {"data": 0, "bss": 1, "ref": 2, "lref": 3, "expr": 4, "proto": 5, "str": 6}
 TYPES = ["i8", "u8", "i16", "u16", "i32", "u32", "i64", "u64", "f", "d", "ld", "p"]
 TKIND = {"item": 0, "ext": 1, "mod": 2, "func": 3}
+VIA = {"": 0, "fwd_exp": 1, "exp": 2, "exp_fwd": 3}
 ENGINES = ["interp", "gen", "lazy_gen", "lazy_bb_gen"]
 
 
@@ -31,8 +32,9 @@ def render_text(case):
     its, exp, decl = case["it"], case["exp"], case["decl"]
     T = ["m: module", "  import ext1, modd"]
     for i, it in enumerate(its, 1):
-        if it[0] == "ref" and exp[i - 1][1] == "item" and exp[i - 1][2] > i:
-            T.append("  forward d%d" % exp[i - 1][2])
+        if it[0] == "ref" and exp[i - 1][1] == "item" and (exp[i - 1][2] > i or it[8]):
+            T += ["  %s d%d" % (w, exp[i - 1][2]) for w in {"": ["forward"], "fwd_exp": ["forward", "export"], "exp": ["export"],
+                                                            "exp_fwd": ["export", "forward"]}[it[8]]]
     T += ["lf: func i64, i64:a, i64:out", "  local i64:r, i64:t", "  mov r, a", "  bt L2, r",
           "L1:", "  add r, r, 1", "L2:", "  add r, r, 2", "L3:", "  add r, r, 3",
           "  laddr t, L1", "  mov i64:(out), t", "  laddr t, L2", "  mov i64:8(out), t", "  laddr t, L3", "  mov i64:16(out), t",
@@ -40,7 +42,7 @@ def render_text(case):
     for t in sorted({it[2] for it in its if it[0] == "expr"}):
         T += ["e_%s: func %s" % (t, t), "  ret %s" % EXPR_TXT[t], "  endfunc"]
     for i, (it, ex) in enumerate(zip(its, exp), 1):
-        k, nm, t, n, tg, d, l1, l2 = it
+        k, nm, t, n, tg, d, l1, l2, via = it
         lab = ("d%d: " % i) if nm and k != "proto" else "  "
         if k == "data":
             if t not in INT_T:
@@ -77,7 +79,7 @@ def txt_case(idx, case, engine):
     form = 1 if case.get("form") == "text" else 0
     L = ["C %d %d %d %d" % (idx, engine, len(its), form)]
     for i, (it, la, se, ex) in enumerate(zip(its, lay, secs, exp)):
-        k, nm, t, n, tg, d, l1, l2 = it
+        k, nm, t, n, tg, d, l1, l2, via = it
         tk = ti = 0
         ed = d
         by = []
@@ -91,8 +93,8 @@ def txt_case(idx, case, engine):
                 raise MachineryError("lref labels mismatch in emitted case")
         init = case["decl"][i] if k == "str" else by
         init = case.get("init", {}).get(str(i), init)    # selftest only: declare other bytes than the expected ones
-        L.append("I %d %d %d %d %d %d %d %d %d %d %d %d %d %d %d %s %d %s" % (
-            KIND[k], nm, TYPES.index(t) if t else 0, n, d, l1, l2, la[0], la[1], la[2], se[0] if se else -1, tk, ti, ed,
+        L.append("I %d %d %d %d %d %d %d %d %d %d %d %d %d %d %d %d %s %d %s" % (
+            KIND[k], nm, TYPES.index(t) if t else 0, n, d, l1, l2, la[0], la[1], la[2], se[0] if se else -1, tk, ti, VIA[via], ed,
             len(by), " ".join(map(str, by)), len(init), " ".join(map(str, init))))
     if form:
         L.append("T " + (case.get("text") or render_text(case)).encode().hex())
